@@ -147,4 +147,115 @@ theorem randomizeMasked_upper_order (vals : List Rat) (P : Rat → Bool) (draws 
   · have := hup _ _ hq1 hp1; linarith
   · exact hord p hp q hq hp1 hq1 hlt
 
+/-! ### the two randomisations of `step4` one after the other -/
+
+theorem leOf_sep {a b : Rat} {t : ExtRat} (ha : ExtRat.leOf a t = false) (hb : ExtRat.leOf b t = true) : b < a := by
+  cases t with
+  | negInf => simp [ExtRat.leOf] at hb
+  | fin q =>
+    simp only [ExtRat.leOf, decide_eq_false_iff_not, decide_eq_true_eq, not_le] at ha hb
+    exact lt_of_le_of_lt hb ha
+  | posInf => simp [ExtRat.leOf] at ha
+
+theorem geOf_sep {a b : Rat} {t : ExtRat} (ha : ExtRat.geOf a t = false) (hb : ExtRat.geOf b t = true) : a < b := by
+  cases t with
+  | negInf => simp [ExtRat.geOf] at ha
+  | fin q =>
+    simp only [ExtRat.geOf, decide_eq_false_iff_not, decide_eq_true_eq, not_le, ge_iff_le] at ha hb
+    exact lt_of_lt_of_le ha hb
+  | posInf => simp [ExtRat.geOf] at hb
+
+/-- index form of the class statement of `randomizeMasked_spec` -/
+theorem randomizeMasked_class (vals : List Rat) (P : Rat → Bool) (draws out : List Rat)
+    (h : randomizeMasked vals (vals.map P) draws = .ok out) (i : Nat) (hi : i < vals.length) :
+    (P (vals.getD i 0) = false ∧ out.getD i 0 = vals.getD i 0) ∨
+    (P (vals.getD i 0) = true ∧ out.getD i 0 ∈ draws) := by
+  obtain ⟨hlen, hcls, _⟩ := randomizeMasked_spec vals P draws out h
+  exact hcls _ (mem_zip_getD vals out hlen.symm i hi)
+
+/-- lower randomisation (down-set mask `PL`, draws inside the mask) followed by upper randomisation (up-set mask
+    `PU`, draws inside it), the two masks being disjoint: a strictly smaller original value never ends up larger -/
+theorem randomize_two_stage (x y z : List Rat) (PL PU : Rat → Bool) (dL dU : List Rat)
+    (h1 : randomizeMasked x (x.map PL) dL = .ok y) (h2 : randomizeMasked y (y.map PU) dU = .ok z)
+    (hdown : ∀ a b : Rat, PL a = false → PL b = true → b < a)
+    (hup : ∀ a b : Rat, PU a = false → PU b = true → a < b)
+    (hdL : ∀ r ∈ dL, PL r = true) (hdU : ∀ r ∈ dU, PU r = true)
+    (hsep : ∀ v : Rat, PL v = true → PU v = false) : OrderPres x z := by
+  have o1 := randomizeMasked_lower_order x PL dL y hdown
+    (fun r hr a ha => le_of_lt (hdown a r ha (hdL r hr))) h1
+  have o2 := randomizeMasked_upper_order y PU dU z hup
+    (fun r hr a ha => le_of_lt (hup a r ha (hdU r hr))) h2
+  refine ⟨o1.1.trans o2.1, ?_⟩
+  intro i j hi hj hlt
+  have hiy : i < y.length := o1.1 ▸ hi
+  have hjy : j < y.length := o1.1 ▸ hj
+  have hle := o1.2 i j hi hj hlt
+  rcases lt_or_eq_of_le hle with hlt' | heq
+  · exact o2.2 i j hiy hjy hlt'
+  · -- equal after the lower step: both were re-drawn below the lower threshold, the upper step leaves them alone
+    rcases randomizeMasked_class x PL dL y h1 i hi with ⟨pi, ei⟩ | ⟨pi, mi⟩ <;>
+      rcases randomizeMasked_class x PL dL y h1 j hj with ⟨pj, ej⟩ | ⟨pj, mj⟩
+    · rw [ei, ej] at heq; linarith
+    · have := hdown _ _ pi pj; linarith
+    · have := hdown _ _ pj (hdL _ mi); rw [ej] at heq; linarith
+    · have ui := hsep _ (hdL _ mi)
+      have uj := hsep _ (hdL _ mj)
+      rcases randomizeMasked_class y PU dU z h2 i hiy with ⟨_, e1⟩ | ⟨q1, _⟩
+      · rcases randomizeMasked_class y PU dU z h2 j hjy with ⟨_, e2⟩ | ⟨q2, _⟩
+        · rw [e1, e2]; exact hle
+        · rw [uj] at q2; exact absurd q2 (by simp)
+      · rw [ui] at q1; exact absurd q1 (by simp)
+
+/-- the `cm_future` component of `step4`: lower randomisation if the variable has a lower bound and threshold,
+    then upper randomisation if it has an upper bound and threshold -/
+theorem step4_F (c : Cfg) (d : Draws) (obs H F : List Rat) (r : List Rat × List Rat × List Rat)
+    (h : step4 c d obs H F = .ok r) :
+    ∃ f1, (if (c.hasLowerBound && c.hasLowerThreshold) = true then step4RandomizeLower c F d.lowF = .ok f1 else f1 = F) ∧
+      (if (c.hasUpperBound && c.hasUpperThreshold) = true then step4RandomizeUpper c f1 d.upF = .ok r.2.2 else r.2.2 = f1) := by
+  unfold step4 at h
+  simp only [bind, Except.bind, pure, Except.pure] at h
+  by_cases hl : (c.hasLowerBound && c.hasLowerThreshold) = true <;>
+    by_cases hu : (c.hasUpperBound && c.hasUpperThreshold) = true <;>
+    simp only [hl, hu, Bool.false_eq_true, ↓reduceIte] at h ⊢
+  · split at h
+    · cases h
+    split at h
+    · cases h
+    split at h
+    · cases h
+    rename_i f1 hf1
+    split at h
+    · cases h
+    split at h
+    · cases h
+    split at h
+    · cases h
+    rename_i f2 hf2
+    injection h with h
+    subst h
+    exact ⟨f1, hf1, hf2⟩
+  · split at h
+    · cases h
+    split at h
+    · cases h
+    split at h
+    · cases h
+    rename_i f1 hf1
+    injection h with h
+    subst h
+    exact ⟨f1, hf1, rfl⟩
+  · split at h
+    · cases h
+    split at h
+    · cases h
+    split at h
+    · cases h
+    rename_i f2 hf2
+    injection h with h
+    subst h
+    exact ⟨F, rfl, hf2⟩
+  · injection h with h
+    subst h
+    exact ⟨F, rfl, rfl⟩
+
 end Lemmas.C09
